@@ -130,6 +130,38 @@ def sc_tag_churn(rng, cid, store):
     return dict(id=cid, conf=conf, steps=steps, scenario="tag-churn-debug-log", threads=threads)
 
 
+def sc_session_overlap(rng, cid, store):
+    """requests of several clients on ONE upload session at the same time: a chunk arriving while the session is completed,
+    status queries while chunks stream in, two chunks at once - whatever they are answered, the session's state (buffer / file,
+    size, digester) is only touched with the session's mutex"""
+    conf = mkconf(store=store, withsubj=False)
+    steps = []
+    for j in range(rng.randrange(10, 16)):
+        k = len(steps)
+        sid = "$SID%d$" % k
+        c0 = b"chunk-zero-%d-" % j * rng.randrange(1, 40)
+        c1 = b"chunk-one-%d-" % j * rng.randrange(1, 40)
+        steps.append(upload_post("a"))
+        steps.append(upload_patch("a", sid, None, state_token(0), c0))
+        late = upload_patch("a", sid, None, state_token(len(c0)), c1)
+        done0 = upload_put("a", sid, None, dg("sha256", c0), state_token(len(c0)), b"")
+        done1 = upload_put("a", sid, None, dg("sha256", c0 + c1), state_token(len(c0) + len(c1)), b"")
+        status = [upload_get("a", sid) for _ in range(4)]
+        shape = j % 3
+        if shape == 0:
+            threads = [[late], [done0], status[:2]]
+        elif shape == 1:
+            threads = [[late, done1], status, [dict(late)]]
+        else:
+            threads = [[late], [done0], [dict(done0)], status[:1]]
+        steps.append(dict(kind="par", impl=dict(op="par", par=[[x["impl"] for x in th] for th in threads]), model="(skip)"))
+        steps.append(upload_delete("a", sid))
+    steps.append(special("close"))
+    for st in steps:
+        st["model"] = "(skip)"
+    return dict(id=cid, conf=conf, steps=steps, scenario="one-session-several-clients")
+
+
 def run(ctx):
     ok_build, blog = ctx.coq_build()
     ok_props, plog = ctx.coq_props() if ok_build else (False, blog)
@@ -141,7 +173,7 @@ def run(ctx):
         for i in range(18):
             cases.append(c11.gen_case(rng, len(cases) + 1, ("mem", "dir", "memdir")[i % 3]))
         for store in ("mem", "dir"):
-            for f, n in ((c12.sc_waiter, 2), (c12.sc_close_ticker, 1), (c12.sc_uploads, 3), (c12.sc_mixed, 4), (sc_evict_stalled, 6 if store == "dir" else 2), (sc_children, 3), (sc_tag_churn, 2), (sc_readonly_first_load, 2 if store == "dir" else 0)):
+            for f, n in ((c12.sc_waiter, 2), (c12.sc_close_ticker, 1), (c12.sc_uploads, 3), (c12.sc_mixed, 4), (sc_evict_stalled, 6 if store == "dir" else 2), (sc_children, 3), (sc_tag_churn, 2), (sc_readonly_first_load, 2 if store == "dir" else 0), (sc_session_overlap, 3)):
                 for _ in range(n):
                     cases.append(f(rng, len(cases) + 1, store))
     for j, c in enumerate(cases):
